@@ -16,6 +16,8 @@ import (
 	"sort"
 	"strconv"
 	"strings"
+	"sync/atomic"
+	"time"
 
 	"github.com/fullstorydev/emulators/storage/gcsemu"
 	"github.com/fullstorydev/emulators/storage/gcsutil"
@@ -267,6 +269,7 @@ func rankGens(rs []Resp) map[int64]int {
 // ---------- executing requests on the real emulator ----------
 
 type Emu struct {
+	wedged atomic.Bool
 	g   *gcsemu.GcsEmu
 	mux *http.ServeMux
 }
@@ -455,13 +458,28 @@ func (e *Emu) errResp(rec *httptest.ResponseRecorder) Resp {
 	return r
 }
 
+// Exec runs one request with a watchdog: a request that does not return within 10 s is a hang
+// (status 598); the emulator is then considered wedged and later requests are not attempted.
 func (e *Emu) Exec(r Req) (out Resp) {
-	rec, p := e.exec(r, &out)
-	if p != "" {
-		return Resp{Status: 599, Kind: "none", Panic: p}
+	if e.wedged.Load() {
+		return Resp{Status: 598, Kind: "none", Panic: "not attempted: an earlier request hangs"}
 	}
-	_ = rec
-	return out
+	done := make(chan Resp, 1)
+	go func() {
+		var o Resp
+		_, p := e.exec(r, &o)
+		if p != "" {
+			o = Resp{Status: 599, Kind: "none", Panic: p}
+		}
+		done <- o
+	}()
+	select {
+	case o := <-done:
+		return o
+	case <-time.After(10 * time.Second):
+		e.wedged.Store(true)
+		return Resp{Status: 598, Kind: "none", Panic: "request did not return within 10s (hang)"}
+	}
 }
 
 func (e *Emu) exec(r Req, out *Resp) (*httptest.ResponseRecorder, string) {
